@@ -134,6 +134,9 @@ impl Prop for C03 {
             inputs.extend(case.raw_inputs.iter().cloned());
         }
         let fam = if case.overlap { "overlap" } else { "plain" };
+        // (input, solutions and first tree of a fresh parser; None = rejected) of the inputs
+        // compared with the reference below, for the parser-reuse pass
+        let mut fresh: Vec<(&str, Option<(usize, Option<dynp::Node>)>)> = vec![];
         for inp in &inputs {
             let lex = match CharLex::new(inp, &spec.terms, true) {
                 Ok(l) => l,
@@ -163,6 +166,7 @@ impl Prop for C03 {
                 Err(p) => return panic_outcome(&format!("glr-parse|{fam}"), &p),
             };
             let ctx = || format!("grammar:\n{text}\ninput: {inp:?}\nreference trees: {total}");
+            fresh.push((inp.as_str(), real.as_ref().ok().map(|o| (o.solutions, o.trees.first().cloned()))));
             match &real {
                 Err(e) => {
                     if total > 0 {
@@ -261,6 +265,33 @@ impl Prop for C03 {
                     }
                 }
             }
+        }
+        // the same inputs once more through ONE parser instance: the forest of every input must
+        // be the one a fresh parser builds (which was compared with the reference above)
+        {
+            let texts: Vec<&str> = fresh.iter().map(|x| x.0).collect();
+            for (k, item) in dynp::glr_parse_session(&texts, RunOpts::default(), GLR_STEPS, true).into_iter().enumerate() {
+                st.sub();
+                let ctx = || format!("grammar:\n{text}\none parser instance parsed, in order: {:?}\ninput #{k}: {:?}", &texts[..=k], texts[k]);
+                match item {
+                    Err(p) => return panic_outcome(&format!("reused-parser|glr-parse|{fam}"), &p),
+                    Ok(r) => {
+                        let got = r.ok();
+                        if got != fresh[k].1 {
+                            return Outcome::fail(
+                                format!("reused-parser|forest-differs|{fam}"),
+                                format!(
+                                    "{}\nreused parser: {}\nfresh parser : {}",
+                                    ctx(),
+                                    got.map(|(n, t)| format!("{n} solutions, first tree {}", t.map(|t| canon_real(&d, &t, true)).unwrap_or_default())).unwrap_or("Err".into()),
+                                    fresh[k].1.clone().map(|(n, t)| format!("{n} solutions, first tree {}", t.map(|t| canon_real(&d, &t, true)).unwrap_or_default())).unwrap_or("Err".into()),
+                                ),
+                            );
+                        }
+                    }
+                }
+            }
+            st.class("reused-parser-session");
         }
         dynp::uninstall();
         Outcome::Pass
